@@ -721,3 +721,19 @@ def c17_library_scope(tier):
     P.append(("bits-loop-shadow", I + X + "for pos in 1..3 {\n  Signal t = set_bit(x, 6);\n  Entity l = place(\"small-lamp\", pos * 2, 0);\n  l.enable = t > 100;\n}\n"))
     P.append(("divmod", I + X + "Signal r = div_floor(y, 3 | \"signal-C\");\nSignal q = mod_positive(y, 3 | \"signal-C\");\n"))
     return P
+
+
+def repo_example_programs():
+    """The repository's own stateless example programs (example_programs/*.facto without memories and imports): a realistic corpus next to the
+    enumerated shapes.  Read from /repo's working tree at check time."""
+    import glob
+    import os
+    import re
+    root = os.environ.get("FACTO_REPO", "/repo")
+    out = []
+    for path in sorted(glob.glob(os.path.join(root, "example_programs", "*.facto"))):
+        src = open(path).read()
+        if re.search(r"^\s*Memory\b", src, re.M) or re.search(r"^\s*import\b", src, re.M) or ".write(" in src:
+            continue
+        out.append(("example:" + os.path.basename(path), src))
+    return out
